@@ -66,6 +66,14 @@ def do_op(op, mutate=False):
                            [[r.center.x, r.center.y, r.shape.w, r.shape.h, r.region, r.location.name] for r in m.rectangles]]
                           for m in nl.modules], [[[b.name for b in e.modules], e.weight] for e in nl.edges]]
             if mutate:
+                # what was loaded belongs to the caller: it is moved, resized and re-flagged in place, then thrown away
+                for m in nl.modules:
+                    for r in m.rectangles:
+                        r.center.x += 1.0
+                        r.shape.w = r.shape.w * 2
+                        r.fixed = not r.fixed
+                    if m.center is not None:
+                        m.center.y -= 0.5
                 nl.modules.clear()
                 nl.edges.append(None)
             return sig12(out)
@@ -88,6 +96,9 @@ def do_op(op, mutate=False):
                 return sorted([r.center.x, r.center.y, r.shape.w, r.shape.h, r.region] for r in lst)
             out = ["ok", rs(die.ground_regions), rs(die.specialized_regions), rs(die.blockages), rs(die.fixed_regions)]
             if mutate:
+                for r in die.ground_regions + die.specialized_regions + die.blockages + die.fixed_regions:
+                    r.center.x += 1.0
+                    r.shape.h = r.shape.h * 2
                 die.ground_regions.append(None)
                 die.blockages.clear()
             return sig12(out)
@@ -104,6 +115,10 @@ def do_op(op, mutate=False):
                                  sorted(a.alloc.items()), a.depth] for a in al.allocations),
                    bool(al.must_be_refined(0.5)), al.max_refinement_depth()]
             if mutate:
+                for a in al.allocations:
+                    a.rect.center.x += 1.0
+                    a.rect.shape.w = a.rect.shape.w * 2
+                    a.alloc.clear()
                 al.allocations.clear()
             return sig12(out)
         if kind == "stog":
@@ -323,6 +338,8 @@ def run_case(c):
         cls.append("probe-loaded-from-a-file-name-used-before")
     if any(h.get("note") == "same-inequalities-other-construction" for h in hist):
         cls.append("history-with-other-robdd-construction")
+    if any(h.get("note") == "same-description-loaded-and-mutated-before" for h in hist):
+        cls.append("same-description-loaded-and-mutated-before")
     if probe.get("note") == "depth-of-earlier-allocations":
         cls.append("allocation-measured-after-other-allocations-were-measured-and-dropped")
     return dict(nt=(len(hist) >= 2 and probe["kind"] in fam) or any(h.get("scale", 1) != probe.get("scale", 1) for h in hist) or bool(probe.get("big")), cls=cls)
@@ -462,6 +479,12 @@ def case_s(draw):
                 h2 = draw(op_s(base))
             h = h2
         hist.append(h)
+    if probe["kind"] in ("netlist", "die", "alloc", "stog") and draw(_i(0, 3)) == 0:
+        # the very same description was loaded earlier by someone else, who changed what came out of it in place and dropped it
+        twin = copy.deepcopy(probe)
+        twin["mutate"] = True
+        twin["note"] = "same-description-loaded-and-mutated-before"
+        hist.insert(draw(_i(0, len(hist))), twin)
     if probe["kind"] == "alloc" and draw(_i(0, 1)) == 0:
         # allocations that were measured / brought to uniform depth and dropped before the probed one is loaded and measured
         probe["ops"] = probe["ops"][:1] + [["uniform"]]
@@ -525,4 +548,5 @@ def subchecks():
                 required=tuple("probe-" + f for f in FAMILIES) + ("history-with-degenerate-netlist", "history-mutates-results",
                                                                    "history-with-rejected-design", "history-100x-larger", "probe-rejected",
                                                                    "history-with-other-robdd-construction",
-                                                                   "allocation-measured-after-other-allocations-were-measured-and-dropped"))]
+                                                                   "allocation-measured-after-other-allocations-were-measured-and-dropped",
+                                                                   "same-description-loaded-and-mutated-before"))]
